@@ -156,6 +156,9 @@ class Formatter(FormatterInterface):
     def _(self, oper: L.Not | L.Neg) -> str:
         """Format a unary operation."""
         arg = self(oper.arg)
+        if isinstance(oper, L.Not):
+            # Python spells it "not", which binds weaker than comparisons
+            return f"(not ({arg}))"
         if oper.arg.precedence >= oper.precedence or arg.startswith(oper.op):
             return f"{oper.op}({arg})"
         return f"{oper.op}{arg}"
@@ -250,13 +253,13 @@ class Formatter(FormatterInterface):
             "acosh": "arccosh",
             "asinh": "arcsinh",
             "atanh": "arctanh",
+            "min_value": "fmin",
+            "max_value": "fmax",
         }
         function = function_map.get(f.function, f.function)
         args = [self(arg) for arg in f.args]
-        if "bessel_y" in function:
-            return "scipy.special.yn"
-        if "bessel_j" in function:
-            return "scipy.special.jn"
+        if "bessel" in function:
+            raise RuntimeError(f"Math function '{f.function}' is not supported by the numba backend.")
         if function == "erf":
             return f"math.erf({args[0]})"
         argstr = ", ".join(args)
